@@ -10,7 +10,7 @@ import (
 // The C10 table.
 var (
 	c10P     = []string{"absent", "unnamed", "named-n", "named-m", "named-base", "metavar", "dot", "blank"}
-	c10F     = []string{"no-imports", "other-paths-only", "unnamed", "name-n", "name-k", "name-base", "dot", "blank", "twice-n-then-k", "twice-k-then-n", "twice-unnamed-then-k"}
+	c10F     = []string{"no-imports", "other-paths-only", "unnamed", "name-n", "name-k", "name-base", "dot", "blank", "twice-n-then-k", "twice-k-then-n", "twice-unnamed-then-k", "unnamed-raw-string-path", "name-n-raw-string-path"}
 	c10G2    = []string{"none", "second-holds", "second-fails"}
 	c10Shape = []string{"single", "grouped", "two-blocks"}
 	c10Pkg   = []string{"none", "matching", "non-matching", "rename-matching", "rename-non-matching"}
@@ -63,9 +63,9 @@ func (c c10Cell) guard1Holds() bool {
 	switch f {
 	case "no-imports", "other-paths-only":
 		return false
-	case "unnamed":
+	case "unnamed", "unnamed-raw-string-path":
 		names = []string{""}
-	case "name-n":
+	case "name-n", "name-n-raw-string-path":
 		names = []string{"n"}
 	case "name-k":
 		names = []string{"k"}
@@ -201,7 +201,21 @@ func (c c10Cell) patch() string {
 func (c c10Cell) file() string {
 	var specs []string
 	var uses []string
+	raw := false // the import path is spelled as a raw string literal
 	add := func(name, path string) {
+		if raw {
+			if name != "" {
+				name += " "
+			}
+			specs = append(specs, name+"`"+path+"`")
+			if strings.TrimSpace(name) != "" {
+				uses = append(uses, strings.TrimSpace(name)+".Use()")
+			} else {
+				uses = append(uses, path[strings.LastIndex(path, "/")+1:]+".Use()")
+			}
+			raw = false
+			return
+		}
 		if name == "" {
 			specs = append(specs, fmt.Sprintf("%q", path))
 			uses = append(uses, path[strings.LastIndex(path, "/")+1:]+".Use()")
@@ -238,6 +252,12 @@ func (c c10Cell) file() string {
 	case "twice-unnamed-then-k":
 		add("", c10Path1)
 		add("k", c10Path1)
+	case "unnamed-raw-string-path":
+		raw = true
+		add("", c10Path1)
+	case "name-n-raw-string-path":
+		raw = true
+		add("n", c10Path1)
 	}
 	if c10G2[c.g2] == "second-holds" && c10F[c.f] != "no-imports" {
 		add("", c10Path2)
@@ -296,8 +316,8 @@ func init() {
 	core.Register(&core.Prop{
 		ID:    "C10",
 		Level: "exploration",
-		Rule: "exhaustive table of 63360 cells: patch-side import form {absent, unnamed, named n, named other, named like the last path element, metavariable-named, '.', '_'} x file-side form {no imports, other paths only, unnamed, same name, other name, named like the last path element, '.', '_', " +
-			"same path twice under two names (both orders), unnamed+named} x second guard import {none, holds, fails} x import block shape {single, grouped, two blocks} x package clause {none, matching, non-matching, rename of matching, rename of non-matching} " +
+		Rule: "exhaustive table of 74880 cells: patch-side import form {absent, unnamed, named n, named other, named like the last path element, metavariable-named, '.', '_'} x file-side form {no imports, other paths only, unnamed, same name, other name, named like the last path element, '.', '_', " +
+			"same path twice under two names (both orders), unnamed+named, path spelled as a raw string literal (unnamed / named)} x second guard import {none, holds, fails} x import block shape {single, grouped, two blocks} x package clause {none, matching, non-matching, rename of matching, rename of non-matching} " +
 			"x guard line prefix {context, '-'} x kind of the code pattern {expression, expression replaced by several statements, statement, declaration} x package of the file {pk, pk_test}; when the change applies the package clause must be the file's own (or the renamed one); every cell on a file in which the code pattern occurs; library API for all cells, CLI for every 8th batch. Oracle: the change applies iff every guard holds per the statement's table. " +
 			"Every cell is non-trivial and distinct (one configuration each).",
 		Assumptions: []string{"'in the stated form' for a path imported twice: the guard holds if any of the specs has the stated form", "a file without imports cannot hold a second guard: such cells expect 'not applied'"},
